@@ -21,7 +21,11 @@ func c02SourceCopied(c *Ctx, k *core, cp *copier, rule string) {
 		ov := args[len(args)-1]
 		call, ok := ov.(*ssa.Call)
 		okc := false
-		if ok && (staticCallee(call) == origin(cp.valM) || staticCallee(call) == origin(cp.valF) || staticCallee(call) == origin(cp.real)) {
+		var sc *ssa.Function
+		if ok {
+			sc = staticCallee(call)
+		}
+		if sc != nil && (sc == origin(cp.valM) || sc == origin(cp.valF) || sc == origin(cp.real)) {
 			// made in this iteration, from the slot
 			okc = call.Block() == ci.Block() || inLoop(call)
 			fSlotVal := w.field("", "sourceValue", "value")
@@ -87,12 +91,8 @@ func c02ElementsDescend(c *Ctx, cp *copier, rule string) {
 		okLoop = false
 		why = "the loop is not `for z := 0; z < in.Len(); z++`"
 		if isForwardRangeIndex(idx) {
-			if iff, ok := hdr.Instrs[len(hdr.Instrs)-1].(*ssa.If); ok {
-				if cmp, ok := iff.Cond.(*ssa.BinOp); ok && cmp.Op == token.LSS && sameValue(cmp.X, idx) {
-					if l, ok := cmp.Y.(*ssa.Call); ok && calleeFullName(l) == "(reflect.Value).Len" && l.Call.Args[0] == ssa.Value(in) {
-						okLoop = true
-					}
-				}
+			if l, ok := headerUpperBound(hdr, idx).(*ssa.Call); ok && calleeFullName(l) == "(reflect.Value).Len" && l.Call.Args[0] == ssa.Value(in) {
+				okLoop = true
 			}
 		}
 		// no exit from the body other than through the header
